@@ -225,6 +225,19 @@ def header_key(header):
     return h
 
 
+def full_header_key(header):
+    """'impl<A> Tr<X> for Ty<B> where ..' -> 'Tr<X>forTy<B>' (generic arguments kept, all whitespace removed)."""
+    h = re.sub(r"\s+", " ", header.strip())
+    h = re.sub(r"^(unsafe )?impl\b", "", h).strip()
+    if h.startswith("<"):
+        j = match_angle(h, 0)
+        h = h[j + 1:].strip()
+    h = re.split(r"\bwhere\b", h)[0].strip()
+    if h.endswith("{"):
+        h = h[:-1]
+    return re.sub(r"\s+", "", h)
+
+
 class Item:
     def __init__(self, src, kind, name, start, hdr_end, end):
         self.src, self.kind, self.name = src, kind, name
@@ -290,14 +303,17 @@ def items_in(src, lo, hi):
                 end = match_close(m, b) + 1
             body = end
         header = src.text[ki:body]
+        full = None
         if kw == "impl":
             name = header_key(header)
+            full = full_header_key(header)
         elif kw == "use":
             name = re.sub(r"\s+", " ", header)
         else:
             nm = re.match(r"\w+!?\s+([A-Za-z_]\w*)", m[ki:body + 1])
             name = nm.group(1) if nm else ""
         res.append(Item(src, kw, name, start, body, end))
+        res[-1].full = full
         pos = end
         floor = end
     return res
@@ -316,14 +332,14 @@ def find_item(src, path):
             kind, name = mk.group(1), mk.group(2).strip()
         else:
             kind, name = "fn", p
-        c = [it for it in top if it.kind == kind and it.name == name]
+        c = [it for it in top if it.kind == kind and (it.name == name or (kind == "impl" and "<" in name and getattr(it, "full", None) == re.sub(r"\s+", "", name)))]
         if len(c) != 1:
             raise LookupError("%s: %d candidates for %r" % (src.path, len(c), path))
         return c[0]
     owner, fname = parts[0], parts[1]
     cands = []
     for it in top:
-        if it.kind == "impl" and it.name == owner or (it.kind == "trait" and owner == "trait " + it.name):
+        if it.kind == "impl" and (it.name == owner or ("<" in owner and getattr(it, "full", None) == re.sub(r"\s+", "", owner))) or (it.kind == "trait" and owner == "trait " + it.name):
             inner = items_in(src, it.hdr_end + 1, it.end - 1)
             for f in inner:
                 if f.kind == "fn" and f.name == fname:
